@@ -15,7 +15,7 @@ PID = 'C02'
 
 META = {
     'technique': 'dominance / must-pass-through on the event-CFG of the packetization thread (temporal delimiter before every post), typestate of the OBU writers (header -> memmove -> size with agreeing argument expressions, by dominance and post-dominance), who-may-use check of the sequence-header type constant; interprocedural effect (store-set) analysis of the stream-header API with ownership of the objects created by the call propagated to callee parameters',
-    'text': 'Decides the structural part of packet well-formedness on every path: no packet can be posted without a temporal delimiter having been written into that buffer, every OBU writer frames its payload consistently (size field announced, payload shifted by the same amounts the size is written with), and the sequence header has one writer used by both the API and the key-frame path. The contents of the OBUs, exactly-one-shown-frame and EOS placement depend on queue contents at run time and are not decided. The framing clause follows helper functions: the gap opened for the size field (uleb length of X) and the value written into it must be the same X after inlining locals and substituting helper parameters. Also decided: every member the sequence-header writer reads is final before the pipeline starts (no run-time store of a non-zero value) - the condition under which the header is byte-identical each time and to svt_av1_enc_stream_header (4 recorded findings, replayed); and EB_AV1_KEY_PICTURE is reported only under the key-frame predicate. Also decided: svt_av1_enc_stream_header, which the application may call at any time, stores only into objects created by that call or has the effects the in-band header path has itself (no store to session state the packetization path reads); the header serialiser and the entry shared by the API and the key-frame path are identified structurally, and an entry that replays stored bytes is accepted only when the serialiser runs before the pipeline starts.',
+    'text': 'Decides the structural part of packet well-formedness on every path: no packet can be posted without a temporal delimiter having been written into that buffer, every OBU writer frames its payload consistently (size field announced, payload shifted by the same amounts the size is written with), and the sequence header has one writer used by both the API and the key-frame path. The contents of the OBUs, exactly-one-shown-frame and EOS placement depend on queue contents at run time and are not decided. The framing clause follows helper functions: the gap opened for the size field (uleb length of X) and the value written into it must be the same X after inlining locals and substituting helper parameters. Also decided: every member the sequence-header writer reads is final before the pipeline starts (no run-time store of a non-zero value) - the condition under which the header is byte-identical each time and to svt_av1_enc_stream_header (4 recorded findings, replayed); and EB_AV1_KEY_PICTURE is reported only under the key-frame predicate. Also decided: svt_av1_enc_stream_header, which the application may call at any time, stores only into objects created by that call or has the effects the in-band header path has itself (no store to session state the packetization path reads); the header serialiser and the entry shared by the API and the key-frame path are identified structurally, and an entry that replays stored bytes is accepted only when the serialiser runs before the pipeline starts. Also decided: for every boundary size the tile size field width announced by write_tile_info holds the stored value tile_size - 1.',
     'note': 'error packets posted by lib_svt_encoder_send_error_exit (p_buffer NULL, size 0) are not stream packets; allocation-failure returns are error exits',
     'ref': 'DESIGN.md section 5 C02',
 }
@@ -485,3 +485,57 @@ def run(P, rep, tier):
                        'EB_AV1_KEY_PICTURE is reported under %s' % ([pstr(c)[:50] for c in guards]) +
                        ('' if ok else ': none of these conditions is the key-frame predicate (idr_flag / frame_type), so intra-only frames are reported as key pictures'))
     rep.floor('C02.PICTYPE', 1)
+
+    # ---------------- BYTEWIDTH: the frame header announces how many bytes each tile size field has; the field then stores
+    # tile_size - 1.  Whatever the selection chain looks like, for every size the announced width must hold the stored value.  Decided by
+    # evaluating the extracted guard chain for boundary sizes (finite evaluation, no execution).
+    from rules.C20 import _ev as _pev
+    wti = P.fn('write_tile_info', required=False)
+    if wti is None or wti.nocfg:
+        raise AnalysisBroken('write_tile_info not found')
+    sel = []
+    for ev in wti.events(('st',)):
+        e = ev['e']
+        if e[0] == 'a' and e[1] == '=' and (last_field(strip(e[2])) or '').endswith('.tile_size_bytes_minus_1') and strip(e[3]) is not None and strip(e[3])[0] == 'l':
+            conds = [(k, c) for k, c, l in wti.ctl_chain(ev) if k in ('if', 'else') and c is not None]
+            sel.append((ev, strip(e[3])[1], conds))
+    guarded = [x for x in sel if x[2]]
+    if len(guarded) < 3:
+        raise AnalysisBroken('tile size width selection not found in write_tile_info (%d guarded stores)' % len(guarded))
+    # locals derived from the size (single definition) are evaluated from their initialiser
+    derived = {}
+    for dv in wti.events(('decl',)):
+        if dv.get('e') is not None and any(x[0] == 'v' and x[1] == 'max_tile_size' for x in subexprs(dv['e'])):
+            derived[dv['n']] = dv['e']
+    bad = []
+    samples = [1, 255, 256, 257, 65535, 65536, 65537, 0xFFFFF, 0x100000, 0x100001, 0xFFFFFF, 0x1000000, 0x1000001, 0x7FFFFFFF]
+    for v in samples:
+        loc = {'max_tile_size': v}
+        for n0, e0 in derived.items():
+            x0 = _pev(e0, {}, dict(loc))
+            if x0 is not None:
+                loc[n0] = x0
+        chosen = None
+        for ev, kval, conds in guarded:
+            ok = True
+            for kind, c in conds:
+                r = _pev(c, {}, dict(loc))
+                if r is None:
+                    if any(x[0] == 'v' and x[1] in loc for x in subexprs(c)):
+                        ok = None            # depends on the size in a way that is not evaluable: leave this sample alone
+                        break
+                    continue                 # a guard that does not concern the size (more than one tile, ...): assumed to hold
+                if (kind == 'if' and not r) or (kind == 'else' and r):
+                    ok = False
+                    break
+            if ok:
+                chosen = kval
+                break
+        if chosen is None:
+            continue
+        if v - 1 >= 256 ** (chosen + 1):
+            bad.append('a largest tile of %d bytes gets a %d-byte field (stores up to %d)' % (v, chosen + 1, 256 ** (chosen + 1) - 1))
+    rep.ob('C02.BYTEWIDTH', 'write_tile_info/tile_size_bytes', not bad, wti.loc(guarded[0][0]),
+           ('the announced tile size field holds tile_size - 1 for every one of %d boundary sizes' % len(samples)) if not bad else
+           ('the tile size field width chosen in write_tile_info is too narrow: %s; only the low bytes of the size are stored and a decoder splits the tile data at the wrong offset' % '; '.join(bad[:3])))
+    rep.floor('C02.BYTEWIDTH', 1)
